@@ -704,6 +704,8 @@ def _guard_div(d):
     """division by a symbolic term: cut the path d == 0 (recorded)"""
     if z3.is_rational_value(d) or z3.is_int_value(d):
         if d.as_fraction() == 0 if z3.is_rational_value(d) else d.as_long() == 0:
+            if CUR is not None and getattr(CUR, 'div_policy', 'cut') == 'total':
+                return      # cdivision(True): no exception; z3's total division leaves the value unspecified
             raise ZeroDivisionError('symbolic run: division by literal zero')
         return
     c = CUR
